@@ -13,6 +13,8 @@
 package main
 
 import (
+	"encoding/base64"
+	"encoding/json"
 	"flag"
 	"fmt"
 	"go/ast"
@@ -20,12 +22,15 @@ import (
 	"go/token"
 	"os"
 	"path/filepath"
+	"reflect"
 	"sort"
 	"strconv"
 	"strings"
 	"time"
 
+	dimodels "github.com/hyperledger/aries-framework-go/component/models/dataintegrity/models"
 	"github.com/hyperledger/aries-framework-go/component/models/ld/proof"
+	"github.com/hyperledger/aries-framework-go/component/models/verifiable"
 	afgotime "github.com/hyperledger/aries-framework-go/component/models/util/time"
 )
 
@@ -394,11 +399,69 @@ func main() {
 		}
 	}
 
+	// --- proof types checkEmbeddedProof lets through to the linked-data verifier: the case list of getProofType
+	embF := parse(filepath.Join(models, "verifiable", "embedded_proof.go"))
+	embCs := consts(embF)
+
+	var supported []string
+
+	gpt := funcDecl(embF, "getProofType")
+	if gpt == nil {
+		fail("getProofType not found")
+	}
+
+	ast.Inspect(gpt.Body, func(n ast.Node) bool {
+		cc, ok := n.(*ast.CaseClause)
+		if !ok || len(cc.List) == 0 {
+			return true
+		}
+
+		// the clause that returns the type without error
+		okClause := false
+
+		for _, st := range cc.Body {
+			if r, isRet := st.(*ast.ReturnStmt); isRet && len(r.Results) == 2 {
+				if id, isID := r.Results[1].(*ast.Ident); isID && id.Name == "nil" {
+					okClause = true
+				}
+			}
+		}
+
+		if okClause {
+			for _, e := range cc.List {
+				supported = append(supported, strOf(e, embCs))
+			}
+		}
+
+		return true
+	})
+
+	if len(supported) == 0 {
+		fail("no supported proof types found in getProofType")
+	}
+
+	// --- the string members a Data Integrity proof object is decoded into (models.Proof, by reflection)
+	var diProofMembers []string
+
+	pt := reflect.TypeOf(dimodels.Proof{})
+	for i := 0; i < pt.NumField(); i++ {
+		f := pt.Field(i)
+		if f.Type.Kind() != reflect.String {
+			fail("models.Proof.%s is not a string", f.Name)
+		}
+
+		diProofMembers = append(diProofMembers, strings.Split(f.Tag.Get("json"), ",")[0])
+	}
+
+	// --- the JWT credential decoder, EXECUTED (verifiable.JWTVCToJSON = decodeCredJWS without signature check) on a
+	// systematic table of payloads: every subset of the registered claims x issuer shape x layout
+	probes, probeFmt := jwtProbes()
+
 	var b strings.Builder
 
 	b.WriteString("(* GENERATED by harness/c07gen from /repo (component/models/ld/proof/{data,jws,proof}.go,\n")
 	b.WriteString("   dataintegrity/suite/ecdsa2019/ecdsa2019.go, signature/verifier/verifier.go) - do not edit. *)\n")
-	b.WriteString("From Coq Require Import List String Bool.\nImport ListNotations.\nOpen Scope string_scope.\n\n")
+	b.WriteString("From Coq Require Import List String Bool ZArith.\nImport ListNotations.\nFrom VF Require Import common.Json.\nOpen Scope string_scope.\n\n")
 	b.WriteString("(* keys removed from the proof options before canonicalisation, proofValue representation *)\n")
 	b.WriteString("Definition excluded_keys : list string := " + coqList(excluded) + ".\n")
 	b.WriteString("(* members that must be present (non-null) in the proof options, else verification fails *)\n")
@@ -416,6 +479,14 @@ func main() {
 	b.WriteString("(* VerifyObject: every proof of the set goes through every step; success only after the loop *)\n")
 	b.WriteString(fmt.Sprintf("Definition verify_object_checks_all_proofs : bool := %v.\n", allProofs))
 
+	b.WriteString("(* proof types verifiable.getProofType accepts (go/ast over embedded_proof.go) *)\n")
+	b.WriteString("Definition supported_proof_types : list string := " + coqList(supported) + ".\n")
+	b.WriteString("(* the members of dataintegrity models.Proof, all strings (reflection) *)\n")
+	b.WriteString("Definition di_proof_members : list string := " + coqList(diProofMembers) + ".\n")
+	b.WriteString("(* verifiable.JWTVCToJSON executed on a table of payloads: (payload, decoded credential or None) *)\n")
+	b.WriteString("Definition jwt_probe_fmt : list (Z * string) := [" + strings.Join(probeFmt, "; ") + "].\n")
+	b.WriteString("Definition jwt_probes : list (list (string * json) * option (list (string * json))) := [\n  " + strings.Join(probes, ";\n  ") + "].\n")
+
 	if err := os.WriteFile(*out, []byte(b.String()), 0o644); err != nil { //nolint:gosec
 		fail("%v", err)
 	}
@@ -432,4 +503,150 @@ func exprSrc(e ast.Expr) string {
 	}
 
 	return "?"
+}
+
+// ---------- JWT decoder probes ----------
+
+func coqJSON(v interface{}) string {
+	switch x := v.(type) {
+	case nil:
+		return "JNull"
+	case bool:
+		if x {
+			return "JBool true"
+		}
+
+		return "JBool false"
+	case json.Number:
+		return "JNum (" + x.String() + ")%Z"
+	case string:
+		return "JStr " + coqStr(x)
+	case []interface{}:
+		var es []string
+		for _, e := range x {
+			es = append(es, coqJSON(e))
+		}
+
+		return "JArr [" + strings.Join(es, "; ") + "]"
+	case map[string]interface{}:
+		return "JObj " + coqMembers(x)
+	}
+
+	fail("coqJSON: unsupported %T", v)
+
+	return ""
+}
+
+func coqMembers(m map[string]interface{}) string {
+	ks := make([]string, 0, len(m))
+	for k := range m {
+		ks = append(ks, k)
+	}
+
+	sort.Strings(ks)
+
+	var es []string
+	for _, k := range ks {
+		es = append(es, "("+coqStr(k)+", "+coqJSON(m[k])+")")
+	}
+
+	return "[" + strings.Join(es, "; ") + "]"
+}
+
+func decodeNum(b []byte) map[string]interface{} {
+	d := json.NewDecoder(strings.NewReader(string(b)))
+	d.UseNumber()
+
+	var m map[string]interface{}
+	if err := d.Decode(&m); err != nil {
+		fail("probe JSON: %v", err)
+	}
+
+	return m
+}
+
+func jwtProbes() ([]string, []string) {
+	times := map[string]int64{"nbf": 1000000000, "iat": 1100000000, "exp": 2000000000}
+
+	var fmtTab []string
+	for _, k := range []string{"nbf", "iat", "exp"} {
+		fmtTab = append(fmtTab, fmt.Sprintf("((%d)%%Z, %s)", times[k], coqStr(time.Unix(times[k], 0).UTC().Format(time.RFC3339))))
+	}
+
+	hdr := base64.RawURLEncoding.EncodeToString([]byte(`{"alg":"EdDSA","kid":"did:example:i#k"}`))
+
+	var out []string
+
+	claimNames := []string{"iss", "jti", "nbf", "iat", "exp"}
+
+	for mask := 0; mask < 1<<len(claimNames); mask++ {
+		for _, issuer := range []string{"absent", "string", "object", "number"} {
+			for _, layout := range []string{"vc", "v5", "vc-empty", "vc-and-members"} {
+				vc := map[string]interface{}{"@context": "c", "id": "urn:inner", "issuanceDate": "D0", "credentialSubject": map[string]interface{}{"id": "did:s"}}
+
+				switch issuer {
+				case "string":
+					vc["issuer"] = "did:inner"
+				case "object":
+					vc["issuer"] = map[string]interface{}{"id": "did:inner", "name": "N"}
+				case "number":
+					vc["issuer"] = 7
+				}
+
+				if mask&1 == 0 && layout != "vc" {
+					continue // the other layouts only with every second claim pattern (table size)
+				}
+
+				p := map[string]interface{}{}
+
+				for i, c := range claimNames {
+					if mask&(1<<i) == 0 {
+						continue
+					}
+
+					switch c {
+					case "iss":
+						p["iss"] = "did:outer"
+					case "jti":
+						p["jti"] = "urn:outer"
+					default:
+						p[c] = times[c]
+					}
+				}
+
+				switch layout {
+				case "vc":
+					p["vc"] = vc
+				case "v5":
+					for k, v := range vc {
+						p[k] = v
+					}
+				case "vc-empty":
+					p["vc"] = map[string]interface{}{}
+					p["a1"] = "x"
+				case "vc-and-members":
+					p["vc"] = vc
+					p["issuer"] = "did:payload-member"
+					p["a1"] = "x"
+				}
+
+				pb, err := json.Marshal(p)
+				if err != nil {
+					fail("%v", err)
+				}
+
+				token := hdr + "." + base64.RawURLEncoding.EncodeToString(pb) + ".c2ln"
+
+				res := "None"
+
+				if got, err := verifiable.JWTVCToJSON([]byte(token)); err == nil {
+					res = "(Some " + coqMembers(decodeNum(got)) + ")"
+				}
+
+				out = append(out, "("+coqMembers(decodeNum(pb))+", "+res+")")
+			}
+		}
+	}
+
+	return out, fmtTab
 }
